@@ -80,11 +80,16 @@ type view struct {
 	hasS     bool
 	elemBox  []box // elements of kind heading/list (for the overlap class)
 	elemKind []string
-	allKinds []string            // kind of every element, parallel to strs (element views only)
-	paras    []paraInfo          // paragraphs the element tree was built from (element views only; classification aid)
-	part     int                 // 1: detectors fed with fragments, 2: public API on a PDF
-	input    []text.TextFragment // the fragments the layout code was given (Part 1: the specification; Part 2: Fragments())
-	err      error
+	// further views of the SAME result (Block.Lines next to Block.Fragments, BlockLayout.GetText next to Block.GetText, …):
+	// each set is judged against the input on its own, so views that disagree with each other cannot both pass
+	moreGroups [][][]text.TextFragment
+	moreStrs   [][]string
+	facets     []string            // names for failure details: first the group sets (primary, more…), then the string sets
+	allKinds   []string            // kind of every element, parallel to strs (element views only)
+	paras      []paraInfo          // paragraphs the element tree was built from (element views only; classification aid)
+	part       int                 // 1: detectors fed with fragments, 2: public API on a PDF
+	input      []text.TextFragment // the fragments the layout code was given (Part 1: the specification; Part 2: Fragments())
+	err        error
 }
 
 // paraInfo: a paragraph as tabula reports it — its box (relative to the column for reading-order
@@ -104,6 +109,36 @@ func overlapsHalf(a, b box) bool {
 		return false
 	}
 	return ox*oy > pinConsumeOverlap*math.Min(a.area(), b.area())
+}
+
+func (v view) groupSets() [][][]text.TextFragment {
+	var out [][][]text.TextFragment
+	if v.hasG {
+		out = append(out, v.groups)
+	}
+	return append(out, v.moreGroups...)
+}
+
+func (v view) strSets() [][]string {
+	var out [][]string
+	if v.hasS {
+		out = append(out, v.strs)
+	}
+	return append(out, v.moreStrs...)
+}
+
+// facet names a view in failure details ("" for the only one).
+func (v view) facet(k int, group bool) string {
+	if len(v.groupSets())+len(v.strSets()) <= 1 {
+		return ""
+	}
+	if !group {
+		k += len(v.groupSets())
+	}
+	if k < len(v.facets) {
+		return "[" + v.facets[k] + "] "
+	}
+	return fmt.Sprintf("[view %d] ", k)
 }
 
 type box struct{ x, y, w, h float64 }
@@ -155,18 +190,18 @@ func judge(items []item, v view, family, aspect string) verdict {
 	var notes []string
 	invented := false
 
-	if v.hasG {
+	for gk, groups := range v.groupSets() {
 		idx := map[posKey]int{}
 		for i, it := range items {
 			idx[keyOf(it.text, it.x, it.y)] = i
 		}
 		cnt := make([]int, n)
-		for gi, g := range v.groups {
+		for gi, g := range groups {
 			for _, f := range g {
 				i, ok := idx[keyOf(f.Text, f.X, f.Y)]
 				if !ok {
 					invented = true
-					notes = append(notes, fmt.Sprintf("group %d holds a fragment that is not an input fragment: %q@%.2f,%.2f", gi, f.Text, f.X, f.Y))
+					notes = append(notes, fmt.Sprintf("%sgroup %d holds a fragment that is not an input fragment: %q@%.2f,%.2f", v.facet(gk, true), gi, f.Text, f.X, f.Y))
 					continue
 				}
 				cnt[i]++
@@ -175,10 +210,10 @@ func judge(items []item, v view, family, aspect string) verdict {
 		for i, it := range items {
 			if cnt[i] == 0 {
 				lost[i] = true
-				notes = append(notes, fmt.Sprintf("fragment %q@%.2f,%.2f (w=%.2f) is in no group", it.text, it.x, it.y, it.w))
+				notes = append(notes, fmt.Sprintf("%sfragment %q@%.2f,%.2f (w=%.2f) is in no group", v.facet(gk, true), it.text, it.x, it.y, it.w))
 			} else if cnt[i] > it.mult {
 				surplus[i] = true
-				notes = append(notes, fmt.Sprintf("fragment %q@%.2f,%.2f is in %d groups/places (input has %d)", it.text, it.x, it.y, cnt[i], it.mult))
+				notes = append(notes, fmt.Sprintf("%sfragment %q@%.2f,%.2f is in %d groups/places (input has %d)", v.facet(gk, true), it.text, it.x, it.y, cnt[i], it.mult))
 			}
 		}
 	}
@@ -188,8 +223,8 @@ func judge(items []item, v view, family, aspect string) verdict {
 		d   int
 	}
 	var ambiguous []ambig
-	if v.hasS {
-		S := strings.Join(v.strs, "\n")
+	for sk, strs := range v.strSets() {
+		S := strings.Join(strs, "\n")
 		got := nonSpace(S)
 		want := map[rune]int{}
 		// identical texts at different positions (list bullets never repeat, but be general): count per distinct text
@@ -241,13 +276,13 @@ func judge(items []item, v view, family, aspect string) verdict {
 				for k := found; k < minC; k++ {
 					i := ids[k]
 					lost[i] = true
-					notes = append(notes, fmt.Sprintf("text of fragment %q@%.2f,%.2f (w=%.2f) is missing from the rendering", t, items[i].x, items[i].y, items[i].w))
+					notes = append(notes, fmt.Sprintf("%stext of fragment %q@%.2f,%.2f (w=%.2f) is missing from the rendering", v.facet(sk, false), t, items[i].x, items[i].y, items[i].w))
 				}
 			} else if found > maxC {
 				for _, i := range ids {
 					surplus[i] = true
 				}
-				notes = append(notes, fmt.Sprintf("text %q occurs %d times in the rendering (input has %d)", t, found, maxC))
+				notes = append(notes, fmt.Sprintf("%stext %q occurs %d times in the rendering (input has %d)", v.facet(sk, false), t, found, maxC))
 			}
 		}
 		// when the rendering repeats text (element tree: heading + paragraph), a surplus copy of one position can hide
